@@ -151,6 +151,8 @@ def dispatchH : Handler := fun j => do
   let k ← kernelOfJson (← field j "kernel")
   let tys ← listOf nat (← field j "tys")
   let dyn ← bool (← field j "dynamic")
+  let fixed ← (do match (j.getObjVal? "fixed") with | .ok f => bool f | .error _ => pure false)
+  if fixed then return jOpt Json.str (dispatchFixed accs k tys dyn)
   match dispatch accs k tys dyn with
   | .error .valueError => return Json.mkObj [("raised", "ValueError")]
   | .ok r => return jOpt Json.str r
@@ -225,13 +227,15 @@ def recognizePipelineH : Handler := fun j => do
   let b ← bodyOfJson (← field j "body")
   let accs ← listOf accOfJson (← field j "accs")
   let dyn ← bool (← field j "dynamic")
+  let fixedDispatch ← (do match (j.getObjVal? "fixed_dispatch") with | .ok f => bool f | .error _ => pure false)
   let r := recognize true b
   let call : Json := match r with
     | none => Json.null
     | some k =>
-      match dispatch accs k b.args dyn with
-      | .error _ => Json.str "raised:ValueError"
-      | .ok c => jOpt Json.str c
+      if fixedDispatch then jOpt Json.str (dispatchFixed accs k b.args dyn)
+      else match dispatch accs k b.args dyn with
+        | .error _ => Json.str "raised:ValueError"
+        | .ok c => jOpt Json.str c
   return Json.mkObj [("kform", jOpt (fun k => kbodyToJson (toKernelForm b k)) r),
     ("round_trip", mbodyToJson (pipelineRecognizeExpand b)), ("call", call)]
 
